@@ -326,3 +326,34 @@ def no_async_detour(run, f, sp, rule="O2.3"):
         run.require(ok_, rule, "thread-helper-joined:%s" % fnname, "%s spawns a thread but can return without receiving its result (program order of the caller would be lost)" % fnname,
                     "%s waits for the helper's result on every path before returning" % fnname, loc=site.loc)
         run.require(fnname.startswith("blocking_"), rule, "thread-spawn-only-in-blocking:%s" % fnname, "std::thread::spawn used in %s" % fnname, "thread helper only under a blocking API", loc=site.loc)
+
+
+# ---- the stop marker ends message handling -------------------------------------------------------
+def stop_marker_ends_loop(run, lc, rule="O1.6"):
+    """Nothing behind the stop marker is handled: from the arm taken for the graceful-stop marker
+    (and for a closed mailbox) the loop cannot get back to the select! or to a handler; it
+    reaches on_stop."""
+    import anchors
+    nm = anchors.names(lc.f)
+    cfg = lc.cfg
+    arms = []
+    for bb, info in lc.switch_info.items():
+        c = info["cls"]
+        if c and c[:2] == ("recv", "mailbox"):
+            if len(c) == 4 and nm.stop in info["arms"]:
+                arms.append(("stop-marker", info["arms"][nm.stop]))
+            if len(c) == 3 and "None" in info["arms"]:
+                arms.append(("mailbox-closed", info["arms"]["None"]))
+    if not run.require(len(arms) >= 2, rule, "stop-arms-found", "cannot find the arms for the stop marker / closed mailbox (%s)" % arms, "found"):
+        return
+    for what, a in arms:
+        r = cfg.reachable_from(a)
+        bad = []
+        if lc.poll_fn_bb in r:
+            bad.append("the select! (so later messages are still received)")
+        bad += ["handle_message"] if any(h in r for h in lc.hooks["handle_message"]) else []
+        bad += ["on_run"] if any(h in r for h in lc.hooks["on_run"]) else []
+        stops = [h for h in lc.hooks["on_stop"] if h in r]
+        run.require(not bad and stops, rule, "stop-ends-handling:%s" % what,
+                    "after the %s is dequeued the loop can still reach %s: messages accepted after stop() returned would be handled" % (what, ", ".join(bad) or "no on_stop"),
+                    "the %s arm leads to on_stop and never back to the select! / a handler" % what, loc=lc.loc(a))
